@@ -18,6 +18,8 @@ Definition vsub : vec -> vec -> vec := vmap2 Qminus.
 Definition vscale (c : Q) (a : vec) : vec := map (Qmult c) a.
 Definition vzero (a : vec) : vec := map (fun _ => 0) a.
 Definition vshift (m : Q) (a : vec) : vec := map (fun x => x - m) a.     (* column - scalar *)
+(* fractions are kept in lowest terms between the steps (Qred q == q): evaluation only *)
+Definition vred (a : vec) : vec := map Qred a.
 
 (* ---------- _create_lookup / _split_X ---------- *)
 (* column names are Z codes (positions 0..m-1 for an ndarray, codes of the labels for a
@@ -64,7 +66,7 @@ Definition mean_all (S : mat) : Q := qsum (concat S) / inject_nat (length (conca
 Definition centre_global (S : mat) : mat := map (vshift (mean_all S)) S.
 
 (* ---------- least-squares projection on span(C) by Gram-Schmidt over Q ---------- *)
-Definition coef (q v : vec) : Q := dot v q / dot q q.
+Definition coef (q v : vec) : Q := Qred (dot v q / dot q q).
 
 (* B is a list of pairwise orthogonal non-zero vectors *)
 Fixpoint proj_basis (B : list vec) (v : vec) : vec :=
@@ -73,7 +75,7 @@ Fixpoint proj_basis (B : list vec) (v : vec) : vec :=
   | q :: B' => vadd (vscale (coef q v) q) (proj_basis B' v)
   end.
 
-Definition resid (B : list vec) (v : vec) : vec := vsub v (proj_basis B v).
+Definition resid (B : list vec) (v : vec) : vec := vred (vsub v (proj_basis B v)).
 
 (* a column whose residual against the basis so far is zero (constant column after centring,
    or a column collinear with earlier ones) is skipped *)
@@ -88,6 +90,14 @@ Definition basis (C : mat) : list vec := gs [] C.
 
 Definition project_on (C : mat) (X : mat) : mat := map (proj_basis (basis C)) X.
 Definition project (S X : mat) : mat := project_on (centre S) X.
+
+(* matrix-level operations (column by column) used to state the formulas of the docstring *)
+Fixpoint mmap2 (f : vec -> vec -> vec) (A B : mat) : mat :=
+  match A, B with
+  | a :: A', b :: B' => f a b :: mmap2 f A' B'
+  | _, _ => []
+  end.
+Definition msub : mat -> mat -> mat := mmap2 vsub.
 
 (* alpha * filtered + (1 - alpha) * original, per column *)
 Definition vblend (a : Q) (u v : vec) : vec := vadd (vscale a u) (vscale (1 - a) v).
@@ -136,8 +146,8 @@ Fixpoint gj (k j : nat) (done todo : list vec) : option (list vec) :=
       match pick j todo with
       | None => None
       | Some (p, rest) =>
-          let p' := vscale (/ nth j p 0) p in
-          let elim := fun r => vsub r (vscale (nth j r 0) p') in
+          let p' := vred (vscale (/ nth j p 0) p) in
+          let elim := fun r => vred (vsub r (vscale (nth j r 0) p')) in
           gj k' (S j) (map elim done ++ [p']) (map elim rest)
       end
   end.
